@@ -293,7 +293,7 @@ fn check_text(case: &Case, obs: &mut Obs) -> Verdict {
             Ok(x) => x,
             Err(e) => return Verdict::Inconclusive(e),
         };
-        if o.bw && !fa.is_empty() {
+        if !fa.is_empty() {
             let mut fb = Vec::with_capacity(fa.len() + 1);
             fb.push(Frag { w: 0.0, ws: 0.0, pw: 0.0 });
             fb.extend(fa.iter().copied());
